@@ -50,7 +50,14 @@ HERE = os.path.dirname(os.path.abspath(__file__))
 
 
 def _load_base():
-    spec = importlib.util.spec_from_file_location("py2coq_base_for_bench", os.path.join(HERE, "py2coq.py"))
+    """tools/py2coq.py: the copy that is already loaded when this front-end is reached through it (so that
+    `Unsupported` is one class), else a private copy"""
+    path = os.path.join(HERE, "py2coq.py")
+    for m in list(sys.modules.values()):
+        f = getattr(m, "__file__", None)
+        if f and os.path.abspath(f) == path and hasattr(m, "Unsupported") and hasattr(m, "find_function"):
+            return m
+    spec = importlib.util.spec_from_file_location("py2coq_base_for_bench", path)
     m = importlib.util.module_from_spec(spec)
     spec.loader.exec_module(m)
     return m
@@ -770,6 +777,9 @@ class BenchTranslator:
                 return self.draw(name, q, val, s, rest, env, k)
         v = self.bindable(self.expr(val, env), s)
         old = env.get(name)
+        if isinstance(s, ast.AugAssign) and (v.t == "listT" or (old is not None and old.t == "listT")):
+            # on a numpy array `xs -= e` works IN PLACE (and through views on the caller's array): not a rebinding
+            raise self.err("augmented assignment to the vector %r (an in-place array operation)" % name, s)
         if old is not None and old.t not in ("obj", "dead", "lit") and v.t != old.t and not (old.t == "T" and v.t in ("lit", "nat")):
             raise self.err("local %r changes its type from %s to %s" % (name, old.t, v.t), s)
         env2 = dict(env)
